@@ -158,10 +158,30 @@ def _binning_loops(ctx):
     outer = [l for l in f.body if isinstance(l, ast.For)]
     if len(outer) != 1:
         raise AnalysisError('blacklisted_binning: outer loop not found')
-    inner = [l for l in walk_no_nested(outer[0]) if isinstance(l, ast.For) and l is not outer[0] and 'fill_range' in src(l.iter)]
+    inner = [l for l, nm in _fill_range_loops(outer[0])]
     if len(inner) != 1:
         raise AnalysisError('blacklisted_binning: loop over fill_range not found')
     return f, outer[0], inner[0]
+
+
+def _fill_range_loops(outer):
+    """[(loop, local)] - the loops over the steps of fill_range inside `outer`: directly (`for .. in [enumerate(]fill_range(..)`) or through a local
+    bound once to fill_range(..) / list(fill_range(..)) (local is that name, else None)"""
+    out = []
+    for l in walk_no_nested(outer):
+        if not isinstance(l, ast.For) or l is outer:
+            continue
+        if 'fill_range' in src(l.iter):
+            out.append((l, None))
+            continue
+        it = l.iter
+        while isinstance(it, ast.Call) and dotted(it.func) in ('enumerate', 'iter', 'list', 'tuple') and it.args:
+            it = it.args[0]
+        if isinstance(it, ast.Name):
+            dd = [a.value for a in walk_no_nested(outer) if isinstance(a, ast.Assign) and len(a.targets) == 1 and src(a.targets[0]) == it.id]
+            if len(dd) == 1 and 'fill_range' in src(dd[0]) and not isinstance(dd[0], (ast.ListComp, ast.GeneratorExp)):
+                out.append((l, it.id))
+    return out
 
 
 def _cursor_name(f, outer):
@@ -591,8 +611,22 @@ def bin_source(ctx, rid):
     outer = [l for l in f.body if isinstance(l, ast.For)]
     if len(outer) != 1:
         raise AnalysisError('blacklisted_binning: outer loop not found')
-    inner_fr = [l for l in walk_no_nested(outer[0]) if isinstance(l, ast.For) and l is not outer[0] and 'fill_range' in src(l.iter)]
+    frl = _fill_range_loops(outer[0])
+    inner_fr = [l for l, nm in frl]
     ys = [y for y in walk_no_nested(outer[0]) if isinstance(y, ast.Yield)]
+    for l, nm in frl:
+        if nm is None:
+            continue
+        # the steps were put into a local first: they must reach the loop as fill_range laid them out
+        edits = [x for x in walk_no_nested(outer[0]) if
+                 (isinstance(x, (ast.Assign, ast.AugAssign)) and any(isinstance(t, ast.Subscript) and src(t.value) == nm for t in (x.targets if isinstance(x, ast.Assign) else [x.target])))
+                 or (isinstance(x, ast.AugAssign) and src(x.target) == nm)
+                 or (isinstance(x, ast.Delete) and any(isinstance(t, ast.Subscript) and src(t.value) == nm for t in x.targets))
+                 or (isinstance(x, ast.Call) and isinstance(x.func, ast.Attribute) and src(x.func.value) == nm and x.func.attr in ('pop', 'append', 'extend', 'insert', 'remove', 'sort', 'reverse', 'clear'))]
+        if edits:
+            ctx.emit(rid, False, BINCOUNTS, edits[0], f'the steps of fill_range are edited before they become bins: `{src(edits[0])[:70]}` - a bin built by joining steps is larger than the step '
+                     f'(bins larger than the requested bin size), a dropped step leaves bases without a bin', key='bins-from-fill-range', what='blacklisted_binning: bins are not the steps of fill_range')
+            return
     if inner_fr:
         inside = all(any(y is x for l in inner_fr for x in walk_no_nested(l)) for y in ys)
         ctx.emit(rid, inside, BINCOUNTS, inner_fr[0], 'bins are the steps of fill_range over the gap (remainder step included)' if inside else
@@ -619,6 +653,42 @@ def bin_source(ctx, rid):
 @rule('C17', 'C17-R6', 'the bins of a gap reach the gap end: they are the steps of fill_range (full steps plus the remainder step)')
 def r6(ctx):
     bin_source(ctx, 'C17-R6')
+
+
+@rule('C17', 'C17-R7', 'every contig is tiled around ITS blacklist: the `blacklist` handed to blacklisted_binning inside the contig loop is computed from the loop\'s contig '
+                       'in every iteration - a local that is only re-assigned for contigs present in the blacklist keeps the intervals of an earlier contig')
+def r7(ctx):
+    from ..util import explore, mk_atoms
+    f = ctx.fn(BINCOUNTS, 'blacklisted_binning_contigs')
+    loops = [l for l in walk_no_nested(f) if isinstance(l, ast.For) and any(isinstance(c, ast.Call) and dotted(c.func) == FN for c in ast.walk(l))]
+    loops = [l for l in loops if not any(o is not l and any(x is l for x in ast.walk(o)) for o in loops)]       # the outermost one: over the contigs
+    if len(loops) != 1:
+        raise AnalysisError('blacklisted_binning_contigs: contig loop not found')
+    l = loops[0]
+    cv = l.target.elts[0].id if isinstance(l.target, ast.Tuple) and isinstance(l.target.elts[0], ast.Name) else (l.target.id if isinstance(l.target, ast.Name) else None)
+    calls = [c for c in walk_no_nested(l) if isinstance(c, ast.Call) and dotted(c.func) == FN]
+    ctx.need('C17-R7', len(calls), 1, 'blacklisted_binning calls in the contig loop')
+    for c in calls:
+        bl = [k.value for k in c.keywords if k.arg == 'blacklist'] or c.args[3:4]
+        if not bl:
+            ctx.emit('C17-R7', False, BINCOUNTS, c, 'blacklisted_binning is called without a blacklist', key='per-contig-blacklist', undecided=True)
+            continue
+        e = bl[0]
+        if cv in names_in(e):
+            ctx.emit('C17-R7', True, BINCOUNTS, c, f'blacklist `{src(e)[:60]}` is looked up with the contig of the iteration', key='per-contig-blacklist')
+            continue
+        if not isinstance(e, ast.Name):
+            ctx.emit('C17-R7', False, BINCOUNTS, c, f'blacklist `{src(e)[:60]}` does not depend on the contig of the iteration', key='per-contig-blacklist', undecided=True)
+            continue
+        inloop = [a for a in walk_no_nested(l) if isinstance(a, ast.Assign) and any(isinstance(t, ast.Name) and t.id == e.id for t in a.targets)]
+        if not inloop or not any(cv in names_in(a.value) for a in inloop):
+            ctx.emit('C17-R7', False, BINCOUNTS, c, f'blacklist `{e.id}` is not computed from the contig inside the loop', key='per-contig-blacklist', undecided=True)
+            continue
+        # is there a way through one iteration that reaches the call without assigning it?
+        stale = [r for r in explore(l.body, mk_atoms({}), names={e.id}, upto=c) if r['kind'] == 'upto' and e.id not in r['env']]
+        ctx.emit('C17-R7', not stale, BINCOUNTS, c, f'blacklist `{e.id}` is assigned from the contig on every way to the call' if not stale else
+                 f'blacklist `{e.id}` is only assigned under a condition (`{src(inloop[0])[:50]}`): for a contig that takes the other branch the call sees the intervals of an EARLIER contig - '
+                 f'that contig is tiled around phantom intervals', key='per-contig-blacklist', what='blacklisted_binning_contigs: blacklist of a previous contig re-used')
 
 
 META = {
